@@ -13,6 +13,8 @@ import (
 	"unicode/utf8"
 
 	"github.com/go-text/typesetting/font"
+	ot "github.com/go-text/typesetting/font/opentype"
+	"github.com/go-text/typesetting/font/opentype/tables"
 	"github.com/go-text/typesetting/harfbuzz"
 	"github.com/go-text/typesetting/language"
 	"pgregory.net/rapid"
@@ -103,6 +105,35 @@ type FaceInfo struct {
 	Alphabets []string // textgen alphabets matching the script tags of GSUB/GPOS (sorted)
 	Features  []uint32 // feature tags of GSUB/GPOS (sorted, distinct)
 	Complex   bool     // layout tables name a script handled by a complex shaper, or the face has morx
+	Axes      []Axis   // fvar axes (variable fonts)
+	HasDevice bool     // GPOS carries hinting Device tables (pixels per em matter)
+}
+
+// Axis is one variation axis of a face.
+type Axis struct {
+	Tag           string
+	Min, Def, Max float32
+}
+
+// axesOf reads the fvar axes of a corpus face through the public table parser.
+func axesOf(rel string, index int) []Axis {
+	lds, err := corpus.Loaders(rel)
+	if err != nil || index >= len(lds) {
+		return nil
+	}
+	raw, err := lds[index].RawTable(ot.MustNewTag("fvar"))
+	if err != nil {
+		return nil
+	}
+	fv, _, err := tables.ParseFvar(raw)
+	if err != nil {
+		return nil
+	}
+	var out []Axis
+	for _, a := range fv.FvarRecords.Axis {
+		out = append(out, Axis{Tag: a.Tag.String(), Min: a.Minimum, Def: a.Default, Max: a.Maximum})
+	}
+	return out
 }
 
 // Pool is the corpus with its strata.
@@ -185,7 +216,11 @@ func ThePool() *Pool {
 		for i, f := range p.All {
 			tr := corpus.TraitsOf(f.File, f.Index)
 			alph, feats, complex := layoutInfo(f.Face.Font)
-			p.Info = append(p.Info, FaceInfo{Traits: tr, Alphabets: alph, Features: feats, Complex: complex || tr.Morx})
+			fi := FaceInfo{Traits: tr, Alphabets: alph, Features: feats, Complex: complex || tr.Morx}
+			if tr.Fvar {
+				fi.Axes = axesOf(f.File, f.Index)
+			}
+			p.Info = append(p.Info, fi)
 			add := func(s string) { strata[s] = append(strata[s], i) }
 			add("all")
 			if tr.GSUB {
@@ -259,6 +294,8 @@ type Opts struct {
 	ValidOnly bool // C12: valid scalar values only, in-range bounds, shaping API only
 	Spacing   bool // C12: draw spacing values and run-position flags
 	NoHB      bool // shaping API only
+	// SynthPositioning restricts DrawSynth to the generated fonts with positioning tables (C12)
+	SynthPositioning bool
 	// Long runs (beyond the library's internal constants: 64-entry AAT ligature stack, 32/64-glyph
 	// context limits, 5-rune context, ...): LongPct percent of the cases (default 6; 2.5 x that on faces
 	// with morx or a complex-shaper script) get a run of 65..LongMax runes (default 600) built by
@@ -270,6 +307,7 @@ type Opts struct {
 var commonFeatures = []string{
 	"kern", "liga", "frac", "smcp", "vert", "calt", "ccmp", "locl", "mark", "mkmk", "init", "medi", "fina", "rlig", "dlig",
 	"salt", "aalt", "numr", "dnom", "vrt2", "vkrn", "rand", "ss01", "cv01", "curs", "dist", "abvm", "blwm", "half", "pres",
+	"vpal", "palt", "vhal", "halt", "vkna", "kern", "vkrn",
 }
 
 func tagOf(s string) uint32 {
@@ -475,6 +513,91 @@ func Params(s Source, c *Case, info *FaceInfo, o Opts) {
 		c.GuessProps = s.Intn("guessprops", 100) >= 85
 		c.UpemScale = s.Intn("upemscale", 100) >= 70
 		c.Ptem = []float32{0, 0, 0, float32(c.Size) / 64, 9, 144}[s.Intn("ptem", 6)]
+		if s.Intn("yscale", 10) == 9 {
+			c.YScale = []int32{1, 64, 1000, 2048, c.Scale() / 2, c.Scale() * 2}[s.Intn("yscalevalue", 6)]
+		}
+	}
+	// alternative ways of filling the buffer (harfbuzz level)
+	c.Fill, c.Clusters, c.CtxPre, c.CtxPost, c.Split = "", nil, false, false, nil
+	if c.API == APIHarfbuzz {
+		runLen := c.RunEnd - c.RunStart
+		switch k := s.Intn("fill", 10); {
+		case k <= 5:
+		case k <= 8:
+			// rune by rune with caller-chosen clusters: a base that is not 0, a stride, repeats
+			// (several runes sharing a cluster, as with byte offsets of another encoding)
+			c.Fill = FillAddRune
+			cl := []int{0, 1, 5, 100, 1 << 20, c.RunStart}[s.Intn("clusterbase", 6)]
+			stride := []int{1, 1, 2, 3, 7, 100}[s.Intn("clusterstride", 6)]
+			repeats := s.Intn("clusterrepeats", 3) == 0
+			c.Clusters = make([]int, runLen)
+			for i := range c.Clusters {
+				if i > 0 && !(repeats && s.Intn("samecluster", 3) == 0) {
+					cl += stride
+				}
+				c.Clusters[i] = cl
+			}
+			c.CtxPre = s.Intn("ctxpre", 2) == 1
+			c.CtxPost = s.Intn("ctxpost", 2) == 1
+		default:
+			c.Fill = FillSplit
+			if runLen > 0 {
+				a := s.Intn("split1", runLen+1)
+				c.Split = []int{a}
+				if s.Intn("split3", 2) == 1 {
+					c.Split = append(c.Split, a+s.Intn("split2", runLen-a+1))
+				}
+			}
+		}
+	}
+	// font instance (both levels): variations on variable fonts, pixels per em
+	c.Vars, c.Coords, c.XPpem, c.YPpem = nil, nil, 0, 0
+	if len(info.Axes) > 0 && s.Intn("instance", 10) < 6 {
+		if s.Intn("normalized", 4) == 0 {
+			for range info.Axes {
+				c.Coords = append(c.Coords, []int{0, 16384, -16384, 8192, -8192, 1, -1, 4096, 12288, -12288}[s.Intn("coord", 10)])
+			}
+		} else {
+			for _, a := range info.Axes {
+				var v float32
+				switch s.Intn("axismode", 8) {
+				case 0:
+					continue // axis not named: default
+				case 1:
+					v = a.Min
+				case 2:
+					v = a.Max
+				case 3:
+					v = a.Def
+				case 4:
+					v = (a.Def + a.Min) / 2
+				case 5:
+					v = (a.Def + a.Max) / 2
+				case 6:
+					v = a.Max + 100 // beyond the range: clamped
+				default:
+					v = a.Min + (a.Max-a.Min)*float32(s.Intn("axisfrac", 101))/100
+				}
+				c.Vars = append(c.Vars, Var{Tag: a.Tag, Value: v})
+			}
+		}
+	}
+	ppemPct := 12
+	if info.Traits.Bitmap || info.HasDevice {
+		ppemPct = 50
+	}
+	if s.Intn("ppem", 100) >= 100-ppemPct {
+		vals := []int{8, 9, 10, 11, 12, 13, 14, 16, 18, 20, 24, 96, int(c.Size+63) / 64, 0xFFFF}
+		c.XPpem = vals[s.Intn("xppem", len(vals))]
+		c.YPpem = c.XPpem
+		if s.Intn("yppemdiffers", 4) == 0 {
+			c.YPpem = vals[s.Intn("yppem", len(vals))]
+		}
+	}
+	// positioning features requested explicitly in vertical runs (kern is not a default there)
+	if c.Dir >= 2 && c.Orient != 2 && s.Intn("verticalkern", 10) < 3 {
+		tg := []string{"kern", "vkrn", "vpal", "palt", "kern"}[s.Intn("verticalfeature", 5)]
+		c.Features = append(c.Features, Feature{Tag: tagOf(tg), Name: tg, Value: 1})
 	}
 	// spacing (C12)
 	c.WordSpacing, c.LetterSpacing, c.StartRun, c.EndRun = 0, 0, false, false
@@ -708,7 +831,25 @@ func markStack(s Source, script string) []rune {
 // (on / off / ranged).
 func DrawSynth(t *rapid.T, o Opts) Case {
 	s := RapidSource{T: t}
-	sp := synthfont.DrawSpec(s)
+	var sp synthfont.Spec
+	switch {
+	case o.SynthPositioning && s.Intn("synthpositioning", 5) != 0:
+		// positioning rules with Device tables (all value-record fields, hinting deltas of the
+		// three formats): the generated-rules kind restricted to GPOS
+		sp = synthfont.DrawRuleSpec(s)
+		for sp.Kind != synthfont.KindRulesGPOS {
+			sp = synthfont.DrawRuleSpec(s)
+		}
+	case o.SynthPositioning:
+		sp = synthfont.DrawSpec(s)
+		for sp.Kind != synthfont.KindPairClasses {
+			sp = synthfont.DrawSpec(s)
+		}
+	case s.Intn("synthrules", 4) == 0:
+		sp = synthfont.DrawRuleSpec(s)
+	default:
+		sp = synthfont.DrawSpec(s)
+	}
 	c := Case{Synth: &sp, Font: "synth:" + sp.Kind}
 	covered, other := sp.Letters()
 	var n int
@@ -736,7 +877,7 @@ func DrawSynth(t *rapid.T, o Opts) Case {
 		}
 	}
 	c.Text = cleanRunes(text, o.ValidOnly)
-	info := &FaceInfo{Features: sp.FeatureTags()}
+	info := &FaceInfo{Features: sp.FeatureTags(), HasDevice: sp.Kind == synthfont.KindRulesGPOS}
 	if sp.Scripts >= 1 {
 		info.Alphabets = []string{"latin"}
 	}
